@@ -18,7 +18,7 @@ SPEC_FORMS = {"old", "forall", "exists", "implies", "result", "unfold", "iff", "
               "count", "raised", "fresh_const", "pw2", "cls_name", "str_contains", "dyn_float", "to_dyn", "let",
               "map_has", "seq_contains", "str_to_int", "int_to_str", "d_int", "d_float", "d_list", "d_chars", "d_is_int",
               "d_is_float", "d_is_list", "d_is_str", "d_is_dict", "d_is_none", "bitlen", "d_mk_list", "d_mk_str", "d_mk_float",
-              "d_mk_int", "d_mk_dict_empty", "d_set", "size", "d_absent", "fn_name"}
+              "d_mk_int", "d_mk_dict_empty", "d_set", "size", "d_absent", "fn_name", "effect_count", "effect_arg", "effect_recv", "effect_index", "world", "effect_result"}
 
 
 class EvalMixin:
@@ -241,7 +241,7 @@ class EvalMixin:
             inner = self.read_field(st, r, name, ft.args[0])
             return Union([(isn, NONE), (z3.Not(isn), inner)])
         if ft.kind in ("any", "func"):
-            return Opaque(f"fld.{name}")
+            return Opaque(f"fld.{name}({r})")
         return Z(ft, self.field_fn(name, ft)(r))
 
     # ----------------------------------------------------------------- containers
@@ -308,6 +308,8 @@ class EvalMixin:
                 e = self.to_str_term(st, x)
                 out = e if out is None else z3.If(c, e, out)
             return out
+        if isinstance(v, Opaque):
+            return z3.Const("strof!" + v.tag, Str)     # str() of an unknown value: a fixed unknown string per value
         st.notes.append("str() of a non-string value treated as an unspecified string")
         return st.fresh("strof", Str)
 
